@@ -1,1 +1,169 @@
-From Ont Require Import Model.KV.
+(** C04 — Layered contract storage behaves like one ordered key/value map.
+
+    Model: Model/KV.v — MemDB as a key-sorted tombstone list, its live iterator, the goleveldb
+    snapshot iterator, JoinIter mirrored field by field (key, value, keyOrigin, nextMemEnd,
+    nextBackEnd; first()/next() and the tombstone-skipping loops of First()/Next()), OverlayDB,
+    CacheDB (key prefix byte = ST_STORAGE as printed from the linked package, Gen/KVConsts.v),
+    util.BytesPrefix. Tied to the code on every run by the C04 correspondence (recorded random
+    histories re-run on the model) — see Corr/C04.v.
+
+    Abstraction: [abs s] = store ∪ overlay ∪ cache (later layers win, tombstones delete), as the
+    key-sorted list of live entries; [abs_block s] the same without the transaction cache. *)
+From Coq Require Import List Bool NArith.
+Import ListNotations.
+From Ont Require Import Lib.Bytes Model.KV Gen.KVConsts Proofs.KV.
+Local Open Scope N_scope.
+
+(** (0) What "one ordered map" means: the abstraction is strictly ascending in bytes.Compare
+    order and holds no empty (deleted) value; so [kv_lookup] on it is a map lookup and a filtered
+    sublist of it is "the live keys with that prefix in ascending order". *)
+Theorem c04_abs_is_ordered_map : forall s, wf_state s = true ->
+  sortedb (abs s) = true /\ sortedb (abs_block s) = true /\
+  (forall e, In e (abs s) -> snd e <> []) /\ (forall e, In e (abs_block s) -> snd e <> []).
+Proof.
+  intros s H. apply wf_state_sorted in H. repeat split.
+  - apply sortedb_ssorted, abs_sorted; exact H.
+  - apply sortedb_ssorted, abs_block_sorted; exact H.
+  - apply abs_live_values.
+  - apply abs_block_live_values.
+Qed.
+Print Assumptions c04_abs_is_ordered_map.
+
+(** (1) Reads return the most recent write, or absence (nil) after a delete: CacheDB.Get through
+    cache -> overlay -> store and OverlayDB.Get through overlay -> store are lookups in the map. *)
+Theorem c04_get_refines : forall pfx s k, wf_state s = true ->
+  cache_get pfx s k = kv_lookup (pkey pfx k) (abs s) /\
+  overlay_get s k = kv_lookup k (abs_block s).
+Proof.
+  intros pfx s k H. apply wf_state_sorted in H. split; [apply cache_get_refines | apply overlay_get_refines]; exact H.
+Qed.
+Print Assumptions c04_get_refines.
+
+(** (2) Put/Delete on the transaction cache are map update / removal (a Put of an empty value is a
+    removal: tombstones are empty values) and do not touch the block-level view. *)
+Theorem c04_put_delete_refine : forall pfx s k v, wf_state s = true ->
+  abs (cache_put pfx k v s) = spec_put (pkey pfx k) v (abs s) /\
+  abs_block (cache_put pfx k v s) = abs_block s /\
+  abs (cache_delete pfx k s) = kv_remove (pkey pfx k) (abs s) /\
+  abs_block (cache_delete pfx k s) = abs_block s /\
+  wf_state (cache_put pfx k v s) = true /\ wf_state (cache_delete pfx k s) = true.
+Proof.
+  intros pfx s k v H. apply wf_state_sorted in H.
+  destruct (cache_put_refines pfx k v s H) as [A B]. destruct (cache_delete_refines pfx k s H) as [C D].
+  repeat split; auto; apply wf_state_sorted; [apply cache_put_sorted | apply cache_delete_sorted]; exact H.
+Qed.
+Print Assumptions c04_put_delete_refine.
+
+(** (3) Committing the transaction cache publishes exactly its writes: the cache is empty
+    afterwards, the overlay is the old overlay with the cache's entries replayed into it, the
+    store is untouched, the block-level view becomes the old transaction-level view, and the
+    transaction-level view does not change. *)
+Theorem c04_commit_cache_abs : forall s, wf_state s = true ->
+  st_cache (cache_commit s) = [] /\
+  st_overlay (cache_commit s) = replay_into (st_cache s) (st_overlay s) /\
+  st_store (cache_commit s) = st_store s /\
+  abs_block (cache_commit s) = abs s /\
+  abs (cache_commit s) = abs s /\
+  wf_state (cache_commit s) = true.
+Proof.
+  intros s H. apply wf_state_sorted in H. destruct (commit_cache_abs s H) as (A & B & C & D & E).
+  repeat split; auto. apply wf_state_sorted, cache_commit_sorted; exact H.
+Qed.
+Print Assumptions c04_commit_cache_abs.
+
+(** (4) Resetting the transaction cache discards exactly its writes. *)
+Theorem c04_reset_abs : forall s,
+  st_cache (cache_reset s) = [] /\ abs_block (cache_reset s) = abs_block s /\ abs (cache_reset s) = abs_block s.
+Proof. exact reset_abs. Qed.
+Print Assumptions c04_reset_abs.
+
+(** (5) Committing the overlay (CommitTo + BatchCommit): the store's live content becomes the
+    block-level view; neither view changes. *)
+Theorem c04_overlay_commit_abs : forall s, wf_state s = true ->
+  live (st_store (overlay_commit s)) = abs_block s /\
+  abs_block (overlay_commit s) = abs_block s /\
+  abs (overlay_commit s) = abs s /\
+  wf_state (overlay_commit s) = true.
+Proof.
+  intros s H. apply wf_state_sorted in H. destruct (overlay_commit_abs s H) as (A & B & C).
+  repeat split; auto. apply wf_state_sorted, overlay_commit_sorted; exact H.
+Qed.
+Print Assumptions c04_overlay_commit_abs.
+
+(** (6) util.BytesPrefix: for byte strings, lying in [start, limit) is having the prefix
+    (including prefixes that end in 0xff bytes, where the limit drops them or is absent). *)
+Theorem c04_prefix_range : forall p k, wf_bytes k = true -> in_range (bytes_prefix p) k = has_prefix p k.
+Proof. exact in_range_prefix. Qed.
+Print Assumptions c04_prefix_range.
+
+(** (7) The exact JoinIter state machine. For ANY two iterators that behave like iterators over
+    key-sorted lists [Lm] (memory side, may contain tombstones) and [Lb] (backend side) — in
+    particular a nested JoinIter — First() followed by Next() until false on a new JoinIter walks
+    exactly the live entries of the ordered union in which the memory side wins on equal keys.
+    Covers: either side empty or exhausted first (including the calls JoinIter then makes on an
+    invalid side whose end flag is not set yet), deleted keys on either side, keys on both sides.
+    [first_ok env B L it]: with fuel >= B, First returns (L <> []) and the iterator then tracks L. *)
+Theorem c04_joiniter_exact : forall env B Lm Lb mem back,
+  first_ok env B Lm mem -> first_ok env B Lb back ->
+  ssorted Lm -> ssorted Lb -> nonempty_keys Lm -> nonempty_keys Lb ->
+  first_ok env (B + length Lm + length Lb + 4) (live (merge Lm Lb)) (new_join_iter mem back) /\
+  forall fuel, (B + length Lm + length Lb + 4 <= fuel)%nat -> (length (live (merge Lm Lb)) <= fuel)%nat ->
+    iterate env fuel (new_join_iter mem back) = (live (merge Lm Lb), true).
+Proof.
+  intros env B Lm Lb mem back Fm Fb Sm Sb Nm Nb.
+  pose proof (join_first_ok env B Lm Lb mem back Fm Fb Sm Sb Nm Nb) as F.
+  split; [exact F|]. intros fuel H1 H2. eapply iterate_first_ok; eauto.
+Qed.
+Print Assumptions c04_joiniter_exact.
+
+(** (8) iter_refines. A prefix iterator of the CacheDB (JoinIter over the cache's live MemDB
+    iterator and the OverlayDB iterator, itself a JoinIter over the overlay's MemDB iterator and
+    the LevelDB snapshot iterator) returns exactly the live keys with that prefix, in ascending
+    order, with their most recent values, prefix byte stripped; the model's fuel bound suffices
+    ([true]). Likewise OverlayDB.NewIterator against the block-level view. *)
+Theorem c04_iter_refines : forall pfx s p, good_state s = true ->
+  cache_iterate pfx s p = (strip_keys (with_prefix (pkey pfx p) (abs s)), true) /\
+  overlay_iterate s p = (with_prefix p (abs_block s), true).
+Proof.
+  intros pfx s p H. apply good_state_good in H.
+  pose proof (good_wf s H) as (Wc & Wo & Wst & No & Nst). destruct H as (Hs & _). split.
+  - apply cache_iter_refines; assumption.
+  - apply overlay_iter_refines; auto.
+Qed.
+Print Assumptions c04_iter_refines.
+
+(** (9) All histories. For every sequence of put/delete/get/iterate/commit/reset on the
+    transaction cache and get/iterate/commit on the overlay, from every well-formed stack (any
+    pre-populated store), the observations of the layered implementation model are exactly those
+    of three plain ordered maps (persisted / block / transaction) under the obvious semantics, and
+    the final stack abstracts to the final maps. Instantiated at the ST_STORAGE prefix the code uses. *)
+Theorem c04_history_refines : forall ops s,
+  good_state s = true -> forallb (hop_ok ST_STORAGE) ops = true ->
+  spec_run ST_STORAGE (abs_spec s) ops =
+    (abs_spec (fst (impl_run ST_STORAGE s ops)), snd (impl_run ST_STORAGE s ops)) /\
+  good_state (fst (impl_run ST_STORAGE s ops)) = true.
+Proof.
+  intros ops s H Ho. apply good_state_good in H.
+  destruct (history_refines ST_STORAGE ops s H Ho) as [E G]. split; [exact E|apply good_state_good; exact G].
+Qed.
+Print Assumptions c04_history_refines.
+
+(** Non-vacuity: a concrete stack with a key in all three layers, tombstones in cache and overlay,
+    an empty value in the store, a neighbouring prefix (ST_STORAGE+1 = the range limit) and a 0xff
+    key; the hypotheses hold and the iterator / Get results are the expected non-trivial ones. *)
+Definition ex_state : state :=
+  mkState [([5; 97], [1]); ([5; 98], []); ([5; 255], [7])]
+          [([5; 97], [2]); ([5; 99], []); ([5; 100], [4])]
+          [([4; 1], [9]); ([5; 97], [3]); ([5; 98], [3]); ([5; 99], [3]); ([5; 101], []); ([5; 102], [6]); ([6], [8])].
+
+Example c04_nonvacuous :
+  good_state ex_state = true /\
+  forallb (hop_ok ST_STORAGE) [HGet [98]; HIter []; HDel [102]; HIter []; HCommit; HOvIter [5]; HReset; HOvCommit; HOvGet [5; 102]] = true /\
+  cache_iterate ST_STORAGE ex_state [] = ([([97], [1]); ([100], [4]); ([102], [6]); ([255], [7])], true) /\
+  overlay_iterate ex_state [] = ([([4; 1], [9]); ([5; 97], [2]); ([5; 98], [3]); ([5; 100], [4]); ([5; 102], [6]); ([6], [8])], true) /\
+  cache_get ST_STORAGE ex_state [98] = [] /\ cache_get ST_STORAGE ex_state [97] = [1] /\
+  snd (impl_run ST_STORAGE ex_state [HGet [98]; HIter []; HDel [102]; HIter []; HCommit; HOvIter [5]; HReset; HOvCommit; HOvGet [5; 102]]) =
+    [ObsVal []; ObsList [([97], [1]); ([100], [4]); ([102], [6]); ([255], [7])] true;
+     ObsList [([97], [1]); ([100], [4]); ([255], [7])] true;
+     ObsList [([5; 97], [1]); ([5; 100], [4]); ([5; 255], [7])] true; ObsVal []].
+Proof. vm_compute. repeat split; reflexivity. Qed.
